@@ -31,13 +31,14 @@ type renderFont struct {
 }
 
 type renderLayout struct {
-	Format   string // pfa, binary, pfb, clear
-	AltNames bool   // -| |- | instead of RD ND NP
-	HexUpper bool
-	HexWidth int
-	WS       string // separator used between tokens on a line
-	IV       [4]byte
-	CSIV     byte // lead bytes of charstrings are CSIV, CSIV+1, …
+	Format    string // pfa, binary, pfb, clear
+	AltNames  bool   // -| |- | instead of RD ND NP
+	HexUpper  bool
+	HexWidth  int
+	HexDigits int    // when > 0: a line end after every HexDigits hex digits instead (also between the two digits of a byte)
+	WS        string // separator used between tokens on a line
+	IV        [4]byte
+	CSIV      byte // lead bytes of charstrings are CSIV, CSIV+1, …
 }
 
 func psStringLit(s string) string {
@@ -191,6 +192,24 @@ func (f *renderFont) render(l renderLayout) []byte {
 			w := l.HexWidth
 			if w <= 0 {
 				w = 32
+			}
+			if l.HexDigits > 0 {
+				eol := "\n"
+				if l.WS == "\t" {
+					eol = "\r\n"
+				}
+				nd := 0
+				for _, c := range cipher {
+					for _, d := range []byte{digits[c>>4], digits[c&15]} {
+						a.WriteByte(d)
+						nd++
+						if nd >= 4 && (nd-4)%l.HexDigits == l.HexDigits-1 {
+							a.WriteString(eol)
+						}
+					}
+				}
+				a.WriteString("\n" + trailer)
+				return a.Bytes()
 			}
 			for i, c := range cipher {
 				a.WriteByte(digits[c>>4])
